@@ -189,6 +189,36 @@ func effUID(uid []byte) []byte {
 
 func isDefaultUID(uid []byte) bool { return bytes.Equal(effUID(uid), sm2sig.DefaultID) }
 
+// adjacent re-homes a user identifier and a message as neighbouring windows of ONE array, the capacity of the first
+// reaching over the second into a spare tail: what a caller does who cuts both out of a received frame. A callee that
+// appends to one argument, or takes its spare capacity as scratch, changes the other argument of the same call; the
+// oracles then see a digest, a signature or a verdict that does not belong to the values that were passed (all
+// reference values are computed from the values, never read back from these windows after a library call). In two
+// cases of three; a nil identifier stays nil (it is the "no identifier" request) and one case in three keeps the
+// exact-capacity slices.
+func adjacent(r *mon.Rand, uid, msg []byte) ([]byte, []byte) {
+	if uid == nil || r.Intn(3) == 0 {
+		return uid, msg
+	}
+	first, second := uid, msg
+	swap := r.Bool()
+	if swap {
+		first, second = msg, uid
+	}
+	tail := r.Range(32, 256)
+	a := make([]byte, len(first)+len(second)+tail)
+	copy(a, first)
+	copy(a[len(first):], second)
+	for i := len(first) + len(second); i < len(a); i++ {
+		a[i] = 0xA5 ^ byte(i)
+	}
+	w1, w2 := a[:len(first)], a[len(first):len(first)+len(second)]
+	if swap {
+		return w2, w1
+	}
+	return w1, w2
+}
+
 // ---------------------------------------------------------------------------
 // verification through every entry point
 
